@@ -544,10 +544,8 @@ SgAgrees(r) ==
 KsAgrees(r) ==
     IF KsN(r) < 2 THEN TRUE
     ELSE /\ r.beta = 14
-         /\ IF r.hasw THEN \/ /\ Len(r.outs) = KsN(r) + 2 * KsWing(r)         \* as coded: the padding is not removed
-                              /\ (KsWindowShape(r) /\ ~r.fit) => KsWeightedApplied(r, 1, KsN(r) + 2 * KsWing(r))
-                           \/ /\ Len(r.outs) = KsN(r)                          \* finding KaiserWeightedPadded repaired
-                              /\ (KsWindowShape(r) /\ ~r.fit) => KsWeightedApplied(r, KsWing(r) + 1, KsN(r))
+         /\ IF r.hasw THEN /\ Len(r.outs) = KsN(r)                             \* the padding is removed (repaired in 76f680e)
+                           /\ (KsWindowShape(r) /\ ~r.fit) => KsWeightedApplied(r, KsWing(r) + 1, KsN(r))
             ELSE Len(r.outs) = KsN(r)
 Drift(r) ==
     NoErr(r) /\
@@ -567,8 +565,7 @@ Drift(r) ==
 (* ================================================================= known-finding triggers ============ *)
 (* KaiserWeightedPadded: kaiser(x, width, weights=...) on a signal of >= 2 values: convolve_weighted's result is         *)
 (*   returned with the mirror padding still attached (len(x) + 2 * wing values)                                         *)
-KnownTriggers == {"KaiserWeightedPadded"}
-TriggerHolds(t, r) ==
-    CASE t = "KaiserWeightedPadded" -> r.op = "kaiser" /\ r.hasw /\ Len(r.v) >= 2
-      [] OTHER -> FALSE
+(* (repaired in /repo: the entry is "fixed" in known_findings.json and no trigger excuses it any more)                 *)
+KnownTriggers == {}
+TriggerHolds(t, r) == FALSE
 =============================================================================
